@@ -16,7 +16,16 @@ var (
 	two256 = new(big.Int).Exp(big.NewInt(2), big.NewInt(256), nil)
 )
 
-func pow256(k int) *big.Int { return new(big.Int).Exp(b256, big.NewInt(int64(k)), nil) }
+var powTab = func() []*big.Int {
+	t := make([]*big.Int, 300)
+	t[0] = big.NewInt(1)
+	for i := 1; i < len(t); i++ {
+		t[i] = new(big.Int).Mul(t[i-1], b256)
+	}
+	return t
+}()
+
+func pow256(k int) *big.Int { return powTab[k] }
 
 // refDecode: value = sign * floor(mantissa * 256^(e-3)) using multiplication/division only.
 func refDecode(c uint32) *big.Int {
@@ -40,10 +49,7 @@ func refEncode(n *big.Int) uint32 {
 		return 0
 	}
 	a := new(big.Int).Abs(n)
-	size := 0
-	for t := new(big.Int).Set(a); t.Sign() > 0; t.Quo(t, b256) {
-		size++
-	}
+	size := (a.BitLen() + 7) / 8 // number of base-256 digits
 	var m *big.Int
 	if size <= 3 {
 		m = new(big.Int).Mul(a, pow256(3-size))
